@@ -27,8 +27,8 @@ func (i *IdealReferenceAlternativeEvaluator) Spec_Evaluate(
 	alternatives *[]AnchoringAlternativeWithCriteria,
 	criteria *model.Criteria,
 ) []model.AlternativeWithCriteria {
-	return findBest(alternatives, criteria, IdealReferenceAltEvaluator, func(c *model.Criterion, a, b valueWithCoefficient) bool {
-		return canNewBeBetter(a, b) && isBetter(c, a, b)
+	return Spec_findBest(alternatives, criteria, IdealReferenceAltEvaluator, func(c *model.Criterion, a, b valueWithCoefficient) bool {
+		return Spec_canNewBeBetter(a, b) && Spec_isBetter(c, a, b)
 	})
 }
 
@@ -41,7 +41,7 @@ func (i *NadirReferenceAlternativeEvaluator) Spec_BlankParams() FunctionParams {
 }
 
 func Spec_isBetter(criterion *model.Criterion, a, b valueWithCoefficient) bool {
-	if criterion.IsGain() {
+	if criterion.Spec_IsGain() {
 		aVal, bVal := a.value*a.coefficient, b.value*b.coefficient
 		if aVal == bVal {
 			return a.value <= b.value
@@ -75,8 +75,8 @@ func (i *NadirReferenceAlternativeEvaluator) Spec_Evaluate(
 	alternatives *[]AnchoringAlternativeWithCriteria,
 	criteria *model.Criteria,
 ) []model.AlternativeWithCriteria {
-	return findBest(alternatives, criteria, NadirReferenceAltEvaluator, func(c *model.Criterion, a, b valueWithCoefficient) bool {
-		return canNewBeBetter(a, b) && !isBetter(c, a, b)
+	return Spec_findBest(alternatives, criteria, NadirReferenceAltEvaluator, func(c *model.Criterion, a, b valueWithCoefficient) bool {
+		return Spec_canNewBeBetter(a, b) && !Spec_isBetter(c, a, b)
 	})
 }
 
@@ -86,9 +86,9 @@ func Spec_findBest(
 	name string,
 	isBetter func(c *model.Criterion, a, b valueWithCoefficient) bool,
 ) []model.AlternativeWithCriteria {
-	best := prepareCriteriaWithCoefficients(alternatives, criteria)
-	findBestCriteriaValues(alternatives, criteria, best, isBetter)
-	result := extractCriteriaValues(best)
+	best := Spec_prepareCriteriaWithCoefficients(alternatives, criteria)
+	Spec_findBestCriteriaValues(alternatives, criteria, best, isBetter)
+	result := Spec_extractCriteriaValues(best)
 	return []model.AlternativeWithCriteria{{
 		Id:       name,
 		Criteria: result,
@@ -112,9 +112,9 @@ func Spec_findBestCriteriaValues(
 	for i := 1; i < len(*alternatives); i++ {
 		alt := (*alternatives)[i]
 		for _, c := range *criteria {
-			criterionValue := alt.Alternative.CriterionRawValue(&c)
+			criterionValue := alt.Alternative.Spec_CriterionRawValue(&c)
 			if oldValue, ok := (*best)[c.Id]; !ok {
-				panic(fmt.Errorf("criterion '%s' not found in criteria %v", c.Id, *criteria.Names()))
+				panic(fmt.Errorf("criterion '%s' not found in criteria %v", c.Id, *criteria.Spec_Names()))
 			} else {
 				newValue := valueWithCoefficient{
 					value:       criterionValue,
